@@ -267,6 +267,19 @@ def f21_parblock_fallback_eof(xcp, d):
         bad.append("exit status / identical copy per driver without copy_file_range: %r" % (res,))
     return bad
 
+def f22_same_file_by_spelling(xcp, d):
+    """C16: `xcp -r d ./d` and `xcp ../in/g f .` are rejected before anything is created"""
+    bad = []
+    w = os.path.join(d, "w"); os.makedirs(os.path.join(w, "d")); os.makedirs(os.path.join(w, "in")); os.makedirs(os.path.join(w, "out"))
+    open(os.path.join(w, "d", "x"), "w").write("x\n"); open(os.path.join(w, "in", "g"), "w").write("g\n"); open(os.path.join(w, "out", "f"), "w").write("f\n")
+    rc, err = run(xcp, ["-r", "d", "./d"], w)
+    if rc == 0 or sorted(os.listdir(os.path.join(w, "d"))) != ["x"]:
+        bad.append("-r d ./d: exit %d, d now holds %s" % (rc, sorted(os.listdir(os.path.join(w, "d")))[:4]))
+    rc, err = run(xcp, ["../in/g", "f", "."], os.path.join(w, "out"))
+    if rc == 0 or sorted(os.listdir(os.path.join(w, "out"))) != ["f"]:
+        bad.append("../in/g f .: exit %d, out now holds %s" % (rc, sorted(os.listdir(os.path.join(w, "out")))))
+    return bad
+
 ALL = {"new:create-before-identity-check": f1_self_copy, "parfile:symlink-result-discarded": f2_symlink_result,
        "copy_node:dev-not-rdev": f3_device_number, "parblock:short-copy-not-retried": f5_short_copy,
        "walker:deref-does-not-follow-dir-links": f8_deref_dir_link, "finalise:chown-after-chmod": f9_setid_ownership,
@@ -280,7 +293,8 @@ ALL = {"new:create-before-identity-check": f1_self_copy, "parfile:symlink-result
        "walker:noclobber-dangling-link": f17_noclobber_dangling, "worker-special:dangling-link-not-replaced": f18_special_over_dangling,
        "main:block-size-zero": f19_block_size_zero,
        "backup:readdir-error-swallowed": f20_backup_readdir_error,
-       "uspace-range:eof-is-an-error": f21_parblock_fallback_eof}
+       "uspace-range:eof-is-an-error": f21_parblock_fallback_eof,
+       "main:same-file-by-spelling-only": f22_same_file_by_spelling}
 
 def main():
     repo = sys.argv[1]
